@@ -168,6 +168,11 @@ struct JObj {
 };
 
 // ---------------------------------------------------------------- violations
+// The driver tells the worker which oracle families decide the property being checked (e.g. "C01.,C04.").  An oracle of another
+// family that fires is only counted: the run goes on, so that the property's own oracles still get their chance in the same run.
+inline std::vector<std::string> g_oracle_filter;
+inline std::map<std::string, uint64_t> g_other_oracles;
+inline std::map<std::string, std::string> g_other_oracle_detail;
 struct Violation {
     bool set = false;
     std::string cls;      // violation class, held fixed while minimising
@@ -176,6 +181,11 @@ struct Violation {
     int op_index = -1;
     void raise(const std::string &c, const std::string &o, const std::string &d, int idx = -1) {
         if (set) return;   // first failing oracle is the reported one
+        if (!g_oracle_filter.empty()) {
+            bool mine = false;
+            for (auto &p : g_oracle_filter) if (o.compare(0, p.size(), p) == 0) mine = true;
+            if (!mine) { g_other_oracles[o]++; if (!g_other_oracle_detail.count(o)) g_other_oracle_detail[o] = d; return; }
+        }
         set = true; cls = c; oracle = o; detail = d; op_index = idx;
     }
 };
